@@ -2,10 +2,14 @@
 (* Direction B for C11: the events recorded from the real decoders          *)
 (* (harness/decode) are accepted iff every call is a behaviour of the call  *)
 (* protocol of Decode.tla:                                                  *)
-(*   Begin(dec, ct, ver, len) ; End(out, consumed, reads, peak)             *)
-(*        out \in {ok, err}, consumed <= len, peak <= A(dec) + B(dec)*len,  *)
-(*        stream decoders: reads <= consumed (every delivered message       *)
-(*        consumed at least one byte).                                      *)
+(*   Begin(dec, ct, ver, len, first frame) ; End(out, consumed, reads,      *)
+(*        peak, served)                                                     *)
+(*        out \in {ok, err}, consumed <= len, peak <= CallBound (the        *)
+(*        decoder-only constant when the decoder refused; per frame type    *)
+(*        for Codec::read), stream decoders: reads <= consumed (every       *)
+(*        delivered message consumed at least one byte), a frame announcing *)
+(*        more than the header check admits: 11 bytes consumed, nothing     *)
+(*        delivered; every admitted Get*Segment request within ServeOK.     *)
 (* Two event forms:                                                         *)
 (*   individual  Begin / End pairs - every call whose outcome is not ok|err *)
 (*               (panic caught in the worker; abort / hang recorded by the  *)
@@ -30,22 +34,22 @@ E == Rec[l]
 TInit == Init /\ l = 1 /\ bad = 0 /\ TLCSet(1, 0)    \* register 1 mirrors `bad` for the postcondition
 
 TBegin == /\ IsEvent("Begin")
-          /\ Begin(E.dec, E.ct, E.ver, E.len)
+          /\ Begin(E.dec, E.ct, E.ver, E.len, [ty |-> E.fty, len |-> E.flen])
           /\ (phase' = "stream") = E.stream
           /\ UNCHANGED bad
 
-Conforms(e) == CallOK(cur.dec, cur.ct, cur.len, e.out, e.consumed, e.reads, e.peak, e.step)
+Conforms(e) == CallOK(cur.dec, cur.ct, cur.len, cur.fr, e.out, e.consumed, e.reads, e.peak, e.step, e.served)
 
 \* the logged call, replayed on the machine: `reads` Read steps are summarised by their totals
 Finish(e) == /\ last' = [out |-> e.out, used |-> e.consumed, reads |-> e.reads, peak |-> e.peak, len |-> cur.len, dec |-> cur.dec, ct |-> cur.ct,
-                          step |-> e.step]
+                          step |-> e.step, fr |-> cur.fr, served |-> e.served]
              /\ phase' = "idle" /\ cur' = NoCall /\ used' = 0 /\ reads' = 0 /\ pstep' = 0
 
 TEnd == /\ IsEvent("End")
         /\ phase \in {"call", "stream"}
         /\ Conforms(E)
         /\ Finish(E)
-        /\ OutcomeOK' /\ ConsumedOK' /\ AllocBounded' /\ Progress' /\ StepKnown'
+        /\ OutcomeOK' /\ ConsumedOK' /\ AllocBounded' /\ Progress' /\ StepKnown' /\ FrameLimitOK' /\ ServeBounded'
         /\ UNCHANGED bad
 
 TEndBad == /\ IsEvent("End")
@@ -56,8 +60,9 @@ TEndBad == /\ IsEvent("End")
            /\ TLCSet(1, bad + 1)
            /\ PrintT(<<"TRACE-BAD", l>>)
 
+\* the aggregated call closest to its bound: wl input bytes, refused by the decoder (wr), first frame (wfty, wflen), wc consumed
 SumOK(e) == /\ e.n = e.ok + e.err
-            /\ e.wp <= Bound(e.dec, e.ct, e.wl)
+            /\ e.wp <= CallBound(e.dec, e.ct, e.wl, [ty |-> e.wfty, len |-> e.wflen], IF e.wr THEN "err" ELSE "ok", e.wc)
             /\ e.maxpeak >= e.wp
 TSum == /\ IsEvent("Sum") /\ phase = "idle"
         /\ SumOK(E)
